@@ -228,6 +228,7 @@ def wide_pair(r, max_kids=30):
 
 
 NS = {"p": "urn:verif:p", "q": "urn:verif:q", "x": "http://verif.example/x"}
+ALIASES = {"p": ["p", "pt", "parts"], "q": ["q", "qq"], "x": ["x", "xh"]}
 
 
 def ns_pair(r, max_nodes=12):
@@ -265,8 +266,11 @@ def ns_pair(r, max_nodes=12):
         R = qualify(rand_tree(r, max_nodes), rp)
     for n in L.iter():
         n.attrs = [(k, v) for k, v in n.attrs if not (k.startswith("{") and "verif" in k and k[1:].split("}")[0] not in [NS[p] for p in lp])]
-    L.nsmap = {p: NS[p] for p in lp}
-    R.nsmap = {p: NS[p] for p in rp}
+    # the prefix a URI is bound to varies from case to case (never inside one case): lxml's prefix registry is process-global,
+    # so consecutive diffs in one worker process re-register the same URI under other prefixes
+    alias = {p: r.choice(ALIASES[p]) for p in NS}
+    L.nsmap = {alias[p]: NS[p] for p in lp}
+    R.nsmap = {alias[p]: NS[p] for p in rp}
     L.tail = None
     R.tail = None
     return L.number(0), R.number(1000)
